@@ -1,0 +1,77 @@
+//go:build verif
+
+// Machine-checked contracts for package dot (comments only; see
+// ../../verif_contracts.go). They are read by /verif/digvc.
+
+package dot
+
+// a graph as NewGraph builds it
+//@ pure func graphOK(dg *Graph) Bool = dg != nil && dg.ctorMap != nil && dg.groupMap != nil && dg.consumers != nil && dg.Failed != nil
+//@     && dg.Failed.ctors != nil && dg.Failed.groups != nil && (forall id CtorID :: id in dg.ctorMap ==> dg.ctorMap[id] != nil)
+
+//@ func NewGraph() (dg)
+//@   allocates
+//@   ensures[C19:a-new-graph-is-empty] graphOK(dg) && fresh(dg) && len(dg.Ctors) == 0 && len(dg.Groups) == 0 && len(dg.Failed.RootCauses) == 0 && len(dg.Failed.TransitiveFailures) == 0
+
+// Failure colouring: the first failure recorded in a graph is the root cause,
+// every later one is a transitive failure; "first" means that no root cause
+// has been recorded yet.
+
+//@ func (dg *Graph) failNode(r, isRootCause) ()
+//@   requires graphOK(dg)
+//@   modifies FailedNodes.RootCauses, FailedNodes.TransitiveFailures, elems(*Result)
+//@   allocates
+//@   ensures[C19:a-root-cause-joins-the-root-causes] isRootCause ==> len(dg.Failed.RootCauses) == old(len(dg.Failed.RootCauses)) + 1 && dg.Failed.RootCauses[len(dg.Failed.RootCauses) - 1] == r
+//@        && dg.Failed.TransitiveFailures == old(dg.Failed.TransitiveFailures)
+//@   ensures[C19:a-later-failure-joins-the-transitive-failures] !isRootCause ==> len(dg.Failed.TransitiveFailures) == old(len(dg.Failed.TransitiveFailures)) + 1
+//@        && dg.Failed.TransitiveFailures[len(dg.Failed.TransitiveFailures) - 1] == r && dg.Failed.RootCauses == old(dg.Failed.RootCauses)
+//@   ensures forall f *FailedNodes :: existed(f) && f != dg.Failed ==> f.RootCauses == old(f.RootCauses) && f.TransitiveFailures == old(f.TransitiveFailures)
+
+//@ func (dg *Graph) FailNodes(results, id) ()
+//@   requires graphOK(dg)
+//@   modifies FailedNodes.RootCauses, FailedNodes.TransitiveFailures, elems(*Result), map(FailedNodes.ctors), Ctor.ErrorType
+//@   allocates
+//@   let first = old(len(dg.Failed.RootCauses) == 0)
+//@   ensures[C19:failed-constructor-is-recorded] id in dg.Failed.ctors
+//@   ensures[C19:first-failure-is-the-root-cause-later-ones-are-transitive] id in dg.ctorMap && dg.ctorMap[id] != nil ==> dg.ctorMap[id].ErrorType == (first ? rootCause : transitiveFailure)
+//@   ensures[C19:only-the-failed-constructor-is-coloured] forall c *Ctor :: existed(c) && !(id in dg.ctorMap && c == dg.ctorMap[id]) ==> c.ErrorType == old(c.ErrorType)
+//@   loop range results #1: complete[C19:every-failed-result-is-recorded]
+//@   loop range results #1: invariant graphOK(dg) && kept(Ctor.ErrorType) && id in dg.Failed.ctors
+//@   site call (*dot.Graph).failNode #1: assert[C19:results-fail-with-the-constructors-classification] $arg0 == results[$i] && $arg1 == first
+
+//@ func (dg *Graph) AddMissingNodes(results) ()
+//@   requires graphOK(dg)
+//@   modifies FailedNodes.RootCauses, FailedNodes.TransitiveFailures, elems(*Result)
+//@   allocates
+//@   let first = old(len(dg.Failed.RootCauses) == 0)
+//@   loop range results #1: complete[C19:every-missing-type-is-recorded]
+//@   loop range results #1: invariant graphOK(dg)
+//@   site call (*dot.Graph).failNode #1: assert[C19:missing-types-are-root-causes-when-nothing-failed-before] $arg0 == results[$i] && $arg1 == first
+
+//@ func (dg *Graph) getGroup(k) (g)
+//@   trusted
+//@   requires graphOK(dg)
+//@   modifies Graph.Groups, elems(*Group), map(Graph.groupMap)
+//@   allocates
+//@   ensures g != nil && graphOK(dg)
+
+//@ func (dg *Graph) FailGroupNodes(name, t, id) ()
+//@   requires graphOK(dg)
+//@   requires id in dg.ctorMap ==> dg.ctorMap[id] != nil && (forall j int :: 0 <= j && j < len(dg.ctorMap[id].Results) ==> dg.ctorMap[id].Results[j] != nil && dg.ctorMap[id].Results[j].Node != nil)
+//@   modifies FailedNodes.RootCauses, FailedNodes.TransitiveFailures, elems(*Result), map(FailedNodes.ctors), map(FailedNodes.groups), Ctor.ErrorType, Group.ErrorType, Graph.Groups, elems(*Group), map(Graph.groupMap)
+//@   allocates
+//@   let first = old(len(dg.Failed.RootCauses) == 0)
+//@   ensures[C19:failed-group-member-constructor-is-coloured-by-order-of-failure] old(id in dg.ctorMap) ==> id in dg.Failed.ctors && dg.ctorMap[id].ErrorType == (first ? rootCause : transitiveFailure)
+//@        && ret(getGroup_1, 0).ErrorType == (first ? rootCause : transitiveFailure)
+//@   ensures[C19:unknown-constructor-fails-nothing] !old(id in dg.ctorMap) ==> kept(Ctor.ErrorType, Group.ErrorType, FailedNodes.RootCauses, FailedNodes.TransitiveFailures)
+//@   loop range dg.ctorMap[id].Results #1: complete[C19:every-result-of-the-failed-constructor-examined]
+//@   loop range dg.ctorMap[id].Results #1: invariant graphOK(dg) && kept(Ctor.ErrorType, Group.ErrorType, map(Graph.ctorMap), Ctor.Results) && id in dg.Failed.ctors
+//@   site call (*dot.Graph).failNode #1: assert[C19:group-members-fail-with-the-same-classification] $arg1 == first
+
+//@ func (dg *Graph) AddCtor(c, paramList, resultList) ()
+//@   trusted
+//@   requires graphOK(dg) && c != nil
+//@   modifies Graph.Ctors, elems(*Ctor), map(Graph.ctorMap), map(Graph.consumers), Graph.Groups, elems(*Group), map(Graph.groupMap), Ctor.Params, Ctor.GroupParams, Ctor.Results, Result.GroupIndex, Group.Results, elems(*Result), elems(*Param)
+//@   allocates plain
+//@   ensures graphOK(dg) && len(dg.Ctors) == old(len(dg.Ctors)) + 1 && dg.Ctors[len(dg.Ctors) - 1] == c
+//@   ensures forall i int :: 0 <= i && i < old(len(dg.Ctors)) ==> dg.Ctors[i] == old(dg.Ctors[i])
